@@ -176,6 +176,7 @@ def report(pid, tier, seed, mod, clauses, jobs, results, herr, t0, write_evidenc
     # ---- violations -> replay files
     out_lines = []
     seen_sig = set()
+    violations.sort(key=lambda v: (v['from_replay'] is None, len(json.dumps(v['case']))))
     os.makedirs(os.path.join(core.VERIF, 'replays'), exist_ok=True)
     for v in violations:
         if v['sig'] in seen_sig:
